@@ -459,6 +459,7 @@ func checkDiff(e *Env, r *cliRunner, c *CliCase) {
 	if !missing {
 		sc := c.Cmd
 		sc.SwapBases = true
+		sc.SrcRemote = false
 		sres := r.run1(sc, "swap")
 		if len(sres.panics) == 0 && errors.Is(sres.err, cmd.ErrDiffFound) != gotDiff {
 			e.Violate("C09.symmetric", "diff src->dest says difference=%v, dest->src says %v (%v)", gotDiff, errors.Is(sres.err, cmd.ErrDiffFound), sres.err)
@@ -467,6 +468,7 @@ func checkDiff(e *Env, r *cliRunner, c *CliCase) {
 	}
 	self := c.Cmd
 	self.SwapBases = false
+	self.SrcRemote = false
 	selfRes := runSelfDiff(e, r, self)
 	if selfRes != nil && len(selfRes.panics) == 0 && selfRes.err != nil && !srcsAnyAbsent(srcs, rels) {
 		e.Violate("C09.self", "diff of a file with itself returned %v", selfRes.err)
@@ -845,7 +847,7 @@ func checkSumCopy(e *Env, r *cliRunner, c *CliCase) {
 	if c.Deviate == nil || c.DevArch < 0 || c.DevArch >= n {
 		return
 	}
-	it := items[0]
+	it := items[int(c.Deviate.Age)%len(items)]
 	dp := filepath.Join(e.Dir, "dst", it, c.Cmd.Dest)
 	db, err := wt.Open(dp, wt.WithoutFlock())
 	if err != nil {
@@ -860,33 +862,40 @@ func checkSumCopy(e *Env, r *cliRunner, c *CliCase) {
 	if pan != "" {
 		return
 	}
-	exp, _, err := expectedSum(files[it], from, until, now)
-	if err != nil {
-		return
-	}
-	dv, err := viewFile(dp, from, until, now)
-	if err != nil {
-		return
-	}
-	want := map[diffKey][2]float64{}
-	for _, a := range sel {
-		s, d := exp[a], dv.series[a]
-		if s == nil || d == nil {
-			continue
+	// expected deviations of every item (only the chosen one can deviate)
+	want := map[string]map[diffKey]bool{}
+	nwant := 0
+	for _, it2 := range items {
+		exp, _, err := expectedSum(files[it2], from, until, now)
+		if err != nil {
+			return
 		}
-		for i, v := range s.vals {
-			w := d.vals[i]
-			equal := (math.IsNaN(v) && math.IsNaN(w)) || (!math.IsNaN(v) && !math.IsNaN(w) && v == w)
-			if !equal {
-				want[diffKey{a, s.from + int64(i)*s.step}] = [2]float64{v, w}
+		dv, err := viewFile(filepath.Join(e.Dir, "dst", it2, c.Cmd.Dest), from, until, now)
+		if err != nil {
+			return
+		}
+		m := map[diffKey]bool{}
+		for _, a := range sel {
+			if a >= len(exp) || a >= len(dv.series) {
+				continue
+			}
+			s, d := exp[a], dv.series[a]
+			if s == nil || d == nil {
+				continue
+			}
+			for i, v := range s.vals {
+				w := d.vals[i]
+				equal := (math.IsNaN(v) && math.IsNaN(w)) || (!math.IsNaN(v) && !math.IsNaN(w) && v == w)
+				if !equal {
+					m[diffKey{a, s.from + int64(i)*s.step}] = true
+					nwant++
+				}
 			}
 		}
+		want[strings.ReplaceAll(it2, "/", ".")] = m
 	}
-	oc := dc
-	oc.Item = strings.ReplaceAll(it, "/", ".")
-	oc.Item = it
-	d2 := r.run1(oc, "sumdiff2")
-	if len(d2.panics) > 0 {
+	d2 := r.run1(dc, "sumdiff2")
+	if len(d2.panics) > 0 || d2.aborted {
 		return
 	}
 	gotDiff := errors.Is(d2.err, cmd.ErrDiffFound)
@@ -894,12 +903,17 @@ func checkSumCopy(e *Env, r *cliRunner, c *CliCase) {
 		e.Violate("C11.sum-diff-detects", "sum-diff after a deviation failed: %v", d2.err)
 		return
 	}
-	if gotDiff != (len(want) > 0) {
-		e.Violate("C11.sum-diff-detects", "destination deviates from the sum in %d slot(s) of the window but sum-diff reports difference=%v", len(want), gotDiff)
+	if gotDiff != (nwant > 0) {
+		e.Violate("C11.sum-diff-detects", "the destination of item %s deviates from the sum in %d slot(s) of the window (%d items compared) but sum-diff reports difference=%v", it, nwant, len(items), gotDiff)
 		return
 	}
-	got := map[diffKey]bool{}
+	got := map[string]map[diffKey]bool{}
+	cur := ""
 	for _, l := range parseOut(d2.out) {
+		if name, ok := l["item"]; ok {
+			cur = name
+			continue
+		}
 		if _, ok := l["srcVal"]; !ok {
 			continue
 		}
@@ -909,21 +923,33 @@ func checkSumCopy(e *Env, r *cliRunner, c *CliCase) {
 			e.Violate("C11.sum-diff-detects", "unparsable line %s", l["_raw"])
 			return
 		}
-		got[diffKey{a, t}] = true
+		if got[cur] == nil {
+			got[cur] = map[diffKey]bool{}
+		}
+		got[cur][diffKey{a, t}] = true
 	}
-	for k := range want {
-		if !got[k] {
-			e.Violate("C11.sum-diff-detects", "deviating slot archive %d %s is not listed by sum-diff", k.arch, relAge(now, k.t))
-			return
+	for name, m := range want {
+		for k := range m {
+			if !got[name][k] {
+				e.Violate("C11.sum-diff-detects", "item %s: deviating slot archive %d %s is not listed by sum-diff", name, k.arch, relAge(now, k.t))
+				return
+			}
 		}
 	}
-	for k := range got {
-		if _, ok := want[k]; !ok {
-			e.Violate("C11.sum-diff-detects", "sum-diff lists archive %d %s, which does not deviate from the sum", k.arch, relAge(now, k.t))
-			return
+	for name, m := range got {
+		for k := range m {
+			if !want[name][k] {
+				e.Violate("C11.sum-diff-detects", "item %s: sum-diff lists archive %d %s, which does not deviate from the sum", name, k.arch, relAge(now, k.t))
+				return
+			}
 		}
 	}
-	if len(want) > 0 {
+	if len(items) > 1 && nwant > 0 {
+		e.Probe("deviation-in-one-of-several-items")
+	}
+	want2 := nwant
+	_ = want2
+	if nwant > 0 {
 		e.Probe("deviation-detected")
 	}
 }
@@ -1147,6 +1173,36 @@ func checkGenerate(e *Env, r *cliRunner, c *CliCase) {
 		e.Violate("C20.generate-fails", "generate with a valid layout failed: %v", res.err)
 		return
 	}
+	if c.Tick != nil && !e.inTickRetry {
+		// the generation instant is the clock value generate sampled: the start
+		// clock, or the start clock plus the tick if the tick came first. The
+		// file must be complete and consistent for one of the two.
+		e.inTickRetry = true
+		defer func() { e.inTickRetry = false }()
+		var first *Violation
+		for _, inst := range []int64{res.now, res.now + c.Tick.D} {
+			saved := e.Viol
+			e.Viol = nil
+			checkGenerateAt(e, c, dp, inst)
+			if e.Viol == nil {
+				e.Viol = saved
+				e.Probe("generate-under-clock-tick-consistent")
+				return
+			}
+			if first == nil {
+				first = e.Viol
+			}
+			e.Viol = saved
+		}
+		if e.Viol == nil {
+			e.Viol = first
+		}
+		return
+	}
+	checkGenerateAt(e, c, dp, now)
+}
+
+func checkGenerateAt(e *Env, c *CliCase, dp string, now int64) {
 	l := c.Cmd.Create
 	v, err := viewFile(dp, 0, now, now)
 	if err != nil {
